@@ -87,7 +87,8 @@ def main() -> int:
             "obligations": au["obligations"], "discharged": au["discharged"], "checker_cmd": au["checker_cmd"],
             "trusted_base": TRUSTED_BASE + getattr(mod, "TRUSTED_EXTRA", []),
             "theorems": [{"name": t["name"], "axioms": t["axioms"], "ok": t["ok"]} for t in au["theorems"]],
-            "audit_cached": au.get("cached", False),
+            "audit_cached": au.get("cached", False), "forbidden_token_hits": au.get("forbidden_hits", []),
+            "leanchecker": au.get("leanchecker"), "lean_sources_sha256": au.get("key"),
             "evaluations": out.evaluations, "distinct_nontrivial": len(out.nontrivial), "rule": out.rule,
             "samples": out.samples, "traces_validated_against_impl": out.traces_validated,
             "excluded_near_tie": out.excluded_near_tie, "model_impl_mismatches": len(out.mismatches),
